@@ -6,6 +6,7 @@ from ..loader import AnalysisError, norm_stmt, walk_own
 from ..rules_flow import forwarding
 from .common import add_fwd, calls_in
 from .common import check as ob
+from ..canon import Canon, localise, each, custom
 
 EXPLANATION = (
     'Decides: (a) in each of the four dispatch chains on `mode` (residue, N-terminal, C-terminal rules of '
@@ -55,6 +56,26 @@ def _append_flag(call: ast.Call):
     return None
 
 
+def _site_of(name: str) -> Optional[str]:
+    for site in ('nterm', 'cterm', 'internal', 'labile', 'unknown', 'static', 'isotope'):
+        if site in name:
+            return site
+    return None
+
+
+def _roles(f):
+    """mod_builder functions with the site index and the searched annotation spelled `mod_index` / `annotation`"""
+    def searched(c, fnode):
+        for n in ast.walk(fnode):
+            if isinstance(n, ast.Call) and isinstance(n.func, ast.Name) and n.func.id == 'get_regex_match_indices' and \
+                    n.args and isinstance(n.args[0], ast.Attribute) and isinstance(n.args[0].value, ast.Name) and \
+                    c.is_local(n.args[0].value.id):
+                return n.args[0].value.id
+        return None
+    return localise(f, {'mod_index': each(lambda t: t.startswith('get_regex_match_indices(')),
+                        'annotation': custom(searched)}, strict=False)
+
+
 def mode_semantics(ctx, rep, clause):
     program = ctx.program
     mod = program.module(MB)
@@ -66,9 +87,10 @@ def mode_semantics(ctx, rep, clause):
     ob(rep, 'EXH', MB, 'ModMode literal == MOD_MODE_VALUES', members == listed == {'skip', 'append', 'overwrite'},
        f'{sorted(members)}', f'literal {sorted(members)} vs list {sorted(listed)}', mod.relpath, clause)
     n_chains = 0
+    labels_seen: Dict[str, int] = {}
     for fname in ('apply_static_mods', '_apply_variable_mods_rec'):
-        f = program.func(f'{MB}:{fname}')
-        for node in walk_own(f.node):
+        f = _roles(program.func(f'{MB}:{fname}'))
+        for node in sorted((x for x in walk_own(f.node) if isinstance(x, ast.If)), key=lambda x: x.lineno):
             if not isinstance(node, ast.If):
                 continue
             ch = _mode_chain(node)
@@ -79,23 +101,28 @@ def mode_semantics(ctx, rep, clause):
                 continue
             n_chains += 1
             handled = set(ch) - {'<else>'}
-            ob(rep, 'EXH', f.fq, f'chain at line {node.lineno} handles every mode', handled == members,
+            # a chain is named after the site it edits (the adder it calls), not after its position in the file
+            first = _adder_call(ch.get('overwrite', [])) or _adder_call(ch.get('append', []))
+            site = first.func.attr[len('add_'):] if first is not None else 'no-adder'
+            labels_seen[f'{fname}/{site}'] = labels_seen.get(f'{fname}/{site}', 0) + 1
+            where = f'{site} chain' + (f' #{labels_seen[f"{fname}/{site}"]}' if labels_seen[f'{fname}/{site}'] > 1 else '')
+            ob(rep, 'EXH', f.fq, f'{where} handles every mode', handled == members,
                f'{sorted(handled)}', f'handles {sorted(handled)}, the literal has {sorted(members)}', f.loc(node), clause)
             for mname, flag in (('overwrite', False), ('append', True)):
                 c = _adder_call(ch.get(mname, []))
                 got = _append_flag(c) if c is not None else None
-                ob(rep, 'SIB-mode', f.fq, f"line {node.lineno}: mode '{mname}' calls the adder with append={flag}",
+                ob(rep, 'SIB-mode', f.fq, f"{where}: mode '{mname}' calls the adder with append={flag}",
                    c is not None and got is flag, norm_stmt(c) if c is not None else '',
                    f"mode '{mname}' " + ('calls no adder' if c is None else f'calls `{norm_stmt(c)}` (append={got})') +
                    f": existing modifications of the site are {'kept' if flag is False else 'replaced'} although the "
                    f"mode says otherwise", f.loc(c) if c is not None else f.loc(node), clause)
             sk = ch.get('skip', [])
-            ob(rep, 'SIB-mode', f.fq, f"line {node.lineno}: mode 'skip' leaves the site alone",
+            ob(rep, 'SIB-mode', f.fq, f"{where}: mode 'skip' leaves the site alone",
                len(sk) == 1 and isinstance(sk[0], ast.Continue), 'continue',
                f"mode 'skip' executes `{'; '.join(norm_stmt(s) for s in sk)}`", f.loc(node), clause)
             el = ch.get('<else>', [])
             ok = len(el) == 1 and isinstance(el[0], ast.Raise) and norm_stmt(el[0].exc.func) == 'ValueError'
-            ob(rep, 'SIB-mode', f.fq, f'line {node.lineno}: any other mode raises ValueError', ok, 'raise ValueError',
+            ob(rep, 'SIB-mode', f.fq, f'{where}: any other mode raises ValueError', ok, 'raise ValueError',
                'an unknown mode is silently ignored', f.loc(node), clause)
             # the unmodified-site branch (the else of the enclosing "already modified?" test) appends
             parent = None
@@ -103,13 +130,24 @@ def mode_semantics(ctx, rep, clause):
                 if isinstance(p, ast.If) and node in p.body and p.orelse:
                     parent = p
             c = _adder_call(parent.orelse) if parent is not None else None
-            ob(rep, 'SIB-mode', f.fq, f'line {node.lineno}: an unmodified site is modified regardless of the mode',
+            ob(rep, 'SIB-mode', f.fq, f'{where}: an unmodified site is modified regardless of the mode',
                c is not None and _append_flag(c) is True, norm_stmt(c) if c is not None else '',
                'the branch for a site without existing modification does not add the modification', f.loc(node), clause)
             if parent is not None:
                 t = norm_stmt(parent.test)
-                ob(rep, 'SIB-mode', f.fq, f'line {node.lineno}: the conflict test asks the annotation about this site',
-                   t.startswith('annotation.has_'), t, f'conflict test is `{t}`', f.loc(parent), clause)
+                pt = parent.test
+                asks = isinstance(pt, ast.Call) and isinstance(pt.func, ast.Attribute) and \
+                    pt.func.attr.startswith('has_') and isinstance(pt.func.value, ast.Name)
+                ob(rep, 'SIB-mode', f.fq, f'{where}: the conflict test asks the annotation about a site',
+                   asks, t, f'conflict test is `{t}`', f.loc(parent), clause)
+                # ... and about the very site the chain edits: has_<site>... guards add_<site>...
+                asked = _site_of(pt.func.attr) if asks else None
+                edited = {_site_of(c.func.attr) for blk in (ch.get('overwrite', []), ch.get('append', []), parent.orelse)
+                          for c in [_adder_call(blk)] if c is not None}
+                ob(rep, 'SIB-mode', f.fq, f'{where}: the conflict test looks at the site the chain edits',
+                   asked is not None and edited == {asked}, f'has_{asked}* guards add_{asked}*',
+                   f'the chain edits {sorted(x or "?" for x in edited)} but decides "already modified?" with `{t}` '
+                   f'({asked}): the mode is applied according to the state of another site', f.loc(parent), clause)
     rep.floor('SIB-mode', 'dispatch chains on mode', n_chains, 4)
 
 
@@ -126,14 +164,16 @@ def site_computation(ctx, rep, clause):
             src = r.binding.get('input_str')
             ok = isinstance(off, ast.UnaryOp) and isinstance(off.op, ast.USub) and \
                 isinstance(off.operand, ast.Constant) and off.operand.value == 1
-            ob(rep, 'SIB-site', f.fq, f'`{norm_stmt(r.node)}`: match end is shifted to the residue index (offset=-1)',
+            site_txt = Canon(f.node).text(r.node)
+            ob(rep, 'SIB-site', f.fq, f'`{site_txt}`: match end is shifted to the residue index (offset=-1)',
                ok, 'offset=-1', f'offset is `{norm_stmt(off) if off is not None else "default 0"}`: every '
                f'modification lands one residue to the right of the matched one', f.loc(r.node), clause)
-            ob(rep, 'SIB-site', f.fq, f'`{norm_stmt(r.node)}`: sites are searched in annotation.sequence',
-               src is not None and norm_stmt(src) == 'annotation.sequence', 'annotation.sequence',
+            ob(rep, 'SIB-site', f.fq, f'`{site_txt}`: sites are searched in the residues of the annotation',
+               src is not None and isinstance(src, ast.Attribute) and src.attr == 'sequence' and
+               isinstance(src.value, ast.Name), '<annotation>.sequence',
                f'searched in `{norm_stmt(src) if src is not None else "?"}`', f.loc(r.node), clause)
     rep.floor('SIB-site', 'site computations in mod_builder.py', n, 4)
-    f = program.func(f'{MB}:apply_static_mods')
+    f = _roles(program.func(f'{MB}:apply_static_mods'))
     tests = [norm_stmt(x.test) for x in walk_own(f.node) if isinstance(x, ast.If) and 'mod_index ==' in norm_stmt(x.test)]
     ob(rep, 'SIB-site', f.fq, 'terminal rules apply at index 0 / len(sequence) - 1',
        sorted(tests) == ['mod_index == 0', 'mod_index == len(annotation.sequence) - 1'], f'{tests}',
@@ -155,9 +195,12 @@ def counter_sibling(ctx, rep, clause):
        cb == cr and len(cb) == 1, f'{cb}', f'the baseline added to max_mods is {cb} but the recursion stops on {cr}: '
        f'with a pre-modified residue carrying two modifications more than max_mods new sites are produced', b.loc(),
        clause)
-    txt = ' '.join(norm_stmt(s) for s in ast.walk(b.node) if isinstance(s, ast.Call))
+    cb_ = Canon(b.node)
+    txt = ' '.join(cb_.text(s) for s in ast.walk(b.node) if isinstance(s, ast.Call) and
+                   norm_stmt(s.func) == '_apply_variable_mods_rec')
+    import re as _re
     ob(rep, 'SIB-counter', b.fq, 'the recursion is started with max_mods + starting count',
-       'max_mods + starting_mod_count' in txt or 'starting_mod_count + max_mods' in txt, 'budget = max_mods + baseline',
+       bool(_re.search(r'max_mods \+ \w+\.count_\w+\(\)|\w+\.count_\w+\(\) \+ max_mods', txt)), 'budget = max_mods + baseline',
        'the recursion budget is not max_mods plus the starting count', b.loc(), clause)
 
 
